@@ -40,7 +40,7 @@ class Mean(Aggregation):
             totals = totals + new.sum()
             counts = counts + new.count()
         if isinstance(counts, Number) and counts == 0:
-            counts = 1
+            return (totals, counts), np.nan
         return (totals, counts), totals / counts
 
     def on_old(self, acc, old):
@@ -49,7 +49,7 @@ class Mean(Aggregation):
             totals = totals - old.sum()
             counts = counts - old.count()
         if isinstance(counts, Number) and counts == 0:
-            counts = 1
+            return (totals, counts), np.nan
         return (totals, counts), totals / counts
 
     def initial(self, new):
